@@ -132,13 +132,13 @@ class SafeLearner(Learner):
                     raise bad_len_ap(ap)
                 return 'AP*'
 
-        if no_len(std_pred) or isinstance(std_pred,str):
+        if no_len(std_pred) or isinstance(std_pred,(str,dict)):
             #action
             std_pred = [std_pred]
-        elif len(std_pred) > 2:
+        elif len(std_pred) != 2:
             #pmf or action
             std_pred = [std_pred]
-        elif len(std_pred) == 2:
+        else:
             #pmf, action or [action,prob]
             if not actions:
                 raise no_act_two
